@@ -17,6 +17,7 @@ def run(chk, replay=None):
     rng = chk.rng
     quick = chk.tier == "quick"
     gprogs = corelib.gen_programs(chk, 100 if quick else 1500, "gprune", size=30, allow_params=False)
+    gprogs += corelib.partial_witness_programs(chk, 80 if quick else 2000, "pw")
     # programs whose verdict depends on the environment
     env_progs = []
     for i, (cond, wt) in enumerate([
@@ -34,6 +35,7 @@ def run(chk, replay=None):
     for g in acc:
         wr = chk.sub_rng("w/" + g.label)
         assigns, _, _ = corelib.witness_assignments(wr, g.witnesses, sample=4)
+        assigns = getattr(g, "extra_assign", []) + assigns
         for a in assigns[:(6 if quick else 40)]:
             full = list(a)
             for n, t in g.witnesses:
